@@ -39,11 +39,19 @@ const gasLimit = 8_000_000
 
 var unit = sdkmath.NewInt(1_000_000_000_000_000_000)
 
+// giftKey: the environment's ledger of gratuitous hand-overs to the pair's escrow account (harness-private key in the erc20
+// store, so it follows the branch): a direct token transfer to the module of an externally-owned pair, a conversion that
+// names the wrapper contract as coin receiver.  The specification's `gift`.
+var giftKey = []byte{0xFE, 'g', 'i', 'f', 't'}
+
 type Consts struct {
 	Kind     string `json:"Kind"` // fx | module | external
 	HasAlias bool   `json:"HasAlias"`
 	InitU1   int64  `json:"InitU1"`
 	InitU2   int64  `json:"InitU2"`
+	// Kind = "reg" (spec/Erc20Reg.tla): the pairs and the pool of free alias denominations
+	Pair []string `json:"Pair"`
+	Free []string `json:"Free"`
 }
 
 type Adapter struct {
@@ -107,6 +115,8 @@ func (a *Adapter) addrOf(ctx sdk.Context, h string) (common.Address, bool) {
 		return common.BytesToAddress(authtypes.NewModuleAddress(chain)), true
 	case "pre":
 		return a.pre, true
+	case "zero":
+		return common.Address{}, true
 	case "wrap":
 		return a.tokenAddr(ctx)
 	}
@@ -154,7 +164,7 @@ func (a *Adapter) observe(ctx sdk.Context, claim cctypes.ExternalClaim) {
 func New(t *testing.T, c Consts) *Adapter {
 	w := world.New(t, 2)
 	a := &Adapter{W: w, C: c, ekey: w.App.GetKey(erc20types.StoreKey), ckey: w.App.GetKey(chain),
-		holders: []string{"u1", "u2", "exe", "mod", "wrap", "eth"}, denoms: []string{"b"},
+		holders: []string{"u1", "u2", "exe", "mod", "wrap", "eth", "pre", "zero"}, denoms: []string{"b"},
 		fip20: contract.GetFIP20().ABI, wfx: contract.GetWFX().ABI, pre: cctypes.GetAddress(), off: map[string]sdkmath.Int{}, hoff: map[string]sdkmath.Int{}}
 	if c.HasAlias {
 		a.denoms = append(a.denoms, "a")
@@ -376,7 +386,22 @@ func (a *Adapter) Apply(ctx sdk.Context, op graph.Op) (sdk.Context, string) {
 		}
 		return ctx, "rej"
 	}
+	if (op.Name() == "Transfer" && a.C.Kind == "external" && op.Str("r") == "mod") || (op.Name() == "ConvertERC20" && a.C.Kind == "fx" && op.Str("r") == "wrap") {
+		a.setGift(ctx, a.gift(ctx)+n)
+	}
 	return ctx, "ok"
+}
+
+func (a *Adapter) gift(ctx sdk.Context) int64 {
+	bz := ctx.KVStore(a.ekey).Get(giftKey)
+	if len(bz) == 0 {
+		return 0
+	}
+	return int64(sdk.BigEndianToUint64(bz))
+}
+
+func (a *Adapter) setGift(ctx sdk.Context, g int64) {
+	ctx.KVStore(a.ekey).Set(giftKey, sdk.Uint64ToBigEndian(uint64(g)))
 }
 
 // program compiles the model's steps to the executor's wire format (harness/evmasm): propagate CALLs, STOP or REVERT.
@@ -522,6 +547,6 @@ func (a *Adapter) Project(ctx sdk.Context) any {
 	it.Close()
 	return map[string]any{
 		"coin": coin, "csupply": csupply, "tok": tok, "supply": supply, "allow": allow, "reg": reg, "enabled": reg && pair.Enabled,
-		"byDenom": byDenom, "byToken": byToken, "aliasIdx": aliasIdx, "mdAlias": mdAlias, "pool": units(pool), "calls": units(calls),
+		"byDenom": byDenom, "byToken": byToken, "aliasIdx": aliasIdx, "mdAlias": mdAlias, "pool": units(pool), "calls": units(calls), "gift": a.gift(ctx),
 	}
 }
